@@ -35,4 +35,4 @@ for d in sorted(glob.glob(os.path.join(ROOT, "seeded", "*", "meta.json"))):
 out += ["", "%d changes kept: %d caught by the quick check of their own property, %d by the check of a sibling property (see `caught by`), %d caught and later neutralised by a fix in /repo (see meta.json)." % (n, own, cross, neut),
         "Behaviour-preserving refactorings used as a false-alarm test are under `neutral/`.", ""]
 open(os.path.join(ROOT, "seeded", "README.md"), "w").write("\n".join(out))
-print("seeded/README.md:", n, "changes,", caught, "caught")
+print("seeded/README.md:", n, "changes,", own, "own,", cross, "sibling,", neut, "neutralised")
